@@ -154,7 +154,7 @@ func (ck *checker) fail(env *qh.Env, q *qm.Q, pc qh.PlanCase, what, format strin
 	class := ""
 	switch what {
 	case "rows", "columns-optimized":
-		class = ck.classify(env, q)
+		class = env.Classify(q)
 	}
 	if triage != nil {
 		what += ":" + class
@@ -169,20 +169,6 @@ func (ck *checker) fail(env *qh.Env, q *qm.Q, pc qh.PlanCase, what, format strin
 	}
 	ck.c.Fail(class, failCase{Variant: env.Name, Text: q.Text(), Q: q, Plan: pc, What: what},
 		"[%s] %s | db=%s | %s | %s", what, q.Text(), env.Name, pc, msg)
-}
-
-// classify computes the known-finding class of a failing query ("" if none).
-func (ck *checker) classify(env *qh.Env, q *qm.Q) string {
-	if env.Model.NameClash(q) {
-		return qm.ClassSumNameClash
-	}
-	if env.Model.ProjectToMinMax(q) {
-		return qm.ClassWholeRowBelow
-	}
-	if pq, err := env.ParseOnly(q.Text()); err == nil && qry.VerifWholeRowBelow(pq) {
-		return qm.ClassWholeRowBelow
-	}
-	return ""
 }
 
 // checkCase judges one (query, content variant).
